@@ -601,6 +601,34 @@ func checkReadHelper(p *core.Prog, r *core.Result, rule string, fn *ssa.Function
 	// library form: binary.LittleEndian.UintNN(b[:]) over the array filled by a full Read
 	if lc, ok := stripConv(core.RetVals(rets[0])[0]).(*ssa.Call); ok {
 		if cal := core.Callee(lc); cal != nil && core.CalleeKey(cal) == fmt.Sprintf("encoding/binary.(littleEndian).Uint%d", 8*n) {
+			// the buffer may be filled and handed back by a helper of the decoder (d.fill(raw[:]) reads into its
+			// argument with a full Read and returns it)
+			if fc, isCall := lc.Call.Args[len(lc.Call.Args)-1].(*ssa.Call); isCall {
+				if h := core.Callee(fc); h != nil && h.Blocks != nil && h.Pkg == fn.Pkg && len(fc.Call.Args) == 2 {
+					hp := h.Params[1]
+					returnsArg, reads := true, false
+					for _, hr := range core.ReturnsOf(h) {
+						if hv := core.RetVals(hr); len(hv) != 1 || hv[0] != ssa.Value(hp) {
+							returnsArg = false
+						}
+					}
+					for _, c := range core.Calls(h) {
+						if core.IsMethod(c, pkgPickle, "reader", "Read") && c.Common().Args[1] == ssa.Value(hp) {
+							for _, hr := range core.ReturnsOf(h) {
+								if core.Dominates(c.(ssa.Instruction), hr) {
+									reads = true
+								}
+							}
+						}
+					}
+					if sl, isSlice := fc.Call.Args[1].(*ssa.Slice); isSlice && sl.Low == nil && sl.High == nil && returnsArg && reads {
+						if at, ok := sl.X.Type().Underlying().(*types.Pointer).Elem().Underlying().(*types.Array); ok {
+							r.Check(at.Len() == int64(n), rule, construct, p.Pos(fn.Pos()), fmt.Sprintf("reads %d bytes (through %s, which fills its argument with a full Read) and decodes them with binary.LittleEndian", n, fname(h)), "the little-endian decode is not applied to a fully read buffer of the right size")
+							return
+						}
+					}
+				}
+			}
 			if sl, ok := lc.Call.Args[len(lc.Call.Args)-1].(*ssa.Slice); ok && sl.Low == nil && sl.High == nil {
 				filled := false
 				for _, c := range core.Calls(fn) {
